@@ -545,9 +545,11 @@ func (l *lockedBuf) String() string              { l.mu.Lock(); defer l.mu.Unloc
 // deque) and the others.
 func raceReports(stderr string) (q, other int) {
 	for _, blk := range strings.Split(stderr, "WARNING: DATA RACE")[1:] {
-		if end := strings.Index(blk, "=================="); end >= 0 {
-			blk = blk[:end]
+		end := strings.Index(blk, "==================")
+		if end < 0 {
+			continue // cut off (the child was killed while printing it)
 		}
+		blk = blk[:end]
 		if strings.Contains(blk, "queue.(*PlayPacketQueue)") {
 			q++
 		} else {
@@ -573,6 +575,11 @@ func crashKind(co childOut) string {
 				strings.Contains(g, "queue.(*PlayPacketQueue)") {
 				return "CrHangQueue"
 			}
+		}
+		// no dump: with -race the process can stop responding inside the race detector while it prints
+		// reports; if those reports are about the packet queue the hang belongs to the same defect
+		if q, _ := raceReports(co.stderr); q > 0 {
+			return "CrHangQueue"
 		}
 		return "CrHang"
 	}
